@@ -26,7 +26,7 @@ def run(ctx):
         pub = setup_public_key(ctx, sn)
         rep.ob('R06.0', 'public accessor chain resolved', pub is not None, 'setup.keypair().public() could not be summarised', w, sn)
         for p in s.ok_paths:
-            got = fields(fields(p.payload).get('message')).get('server_s_pk')
+            got = field_where(fields(p.payload).get('message'), lambda x: x is not None and not (x[0] == 'app' and x[1] == 'Eval'))
             n += int(got == pub)
             rep.ob('R06.1', "registration response carries the setup's public key", got == pub and pub is not None,
                    'server_s_pk = %s ; setup.keypair().public() = %s' % (show(got), show(pub)), w, sn, sample=show(got))
@@ -34,10 +34,11 @@ def run(ctx):
         # R06.2
         s = api_summary(ctx, sn, 'creg_finish')
         w = where_of(s)
-        RPK = ('fld', Sym('response'), 'server_s_pk')
+        RPK = role_term(ctx, sn, s, 4, Sym('response'), 'pubkeys')
+        rep.ob('R06.0', 'registration response public-key field located by type', RPK is not None, '', w, sn)
         for p in s.ok_paths:
             res = fields(p.payload)
-            env = fields(fields(res.get('message')).get('envelope'))
+            env = fields(msg_envelope(res.get('message')))
             macs = [v for v in env.values() if app_args(v, 'Mac')]
             inmac = bool(macs) and contains(macs[0][2][1], App('KeGroup::serialize_pk', ('fld', RPK, '0')))
             n += int(inmac)
@@ -51,7 +52,7 @@ def run(ctx):
         w = where_of(s)
         for p in s.ok_paths:
             res = fields(p.payload)
-            mr = fields(fields(res.get('message')).get('masked_response'))
+            mr = fields(msg_masked(res.get('message')))
             xs = []
             for v in mr.values():
                 xs.extend(find_apps(v, 'xor'))
